@@ -135,6 +135,16 @@ type vrResolver struct {
 	PTab   map[string]int64 `json:"ptab"`   // "type,incubating,resolved" -> stages completed
 }
 
+// vrCollide: an htlc that is NOT on the confirmed commitment but on another
+// persisted commitment of the commit set, at an output index that a DIFFERENT
+// htlc occupies on the confirmed commitment (output indexes are per
+// commitment transaction).
+type vrCollide struct {
+	Set    string `json:"set"` // local | remote | pending
+	Idx    int64  `json:"idx"`
+	OutIdx int64  `json:"outidx"`
+}
+
 type vrSpec struct {
 	Name         string       `json:"name"`
 	Kind         string       `json:"kind"` // coop|local|remote|pending|breach
@@ -147,6 +157,7 @@ type vrSpec struct {
 	FailsClosed  []int64      `json:"fails_closed"`
 	FinalsClosed []int64      `json:"finals_closed"`
 	Resolvers    []vrResolver `json:"resolvers"`
+	Collide      []vrCollide  `json:"collide,omitempty"`
 }
 
 type vrSnap struct {
@@ -634,6 +645,21 @@ func (w *vrWorld) build() vrEvent {
 		}
 	}
 
+	for _, cl := range sp.Collide {
+		key := LocalHtlcSet
+		switch cl.Set {
+		case "remote":
+			key = RemoteHtlcSet
+		case "pending":
+			key = RemotePendingHtlcSet
+		}
+		if key == confKey {
+			w.t.Fatalf("collider must not be on the confirmed commitment")
+		}
+		// offered, non-dust, far from expiry, own hash and amount
+		addHtlc(key, mk(cl.Idx, false, int32(cl.OutIdx), 900, vrHash(cl.Idx)))
+	}
+
 	var commitRes *lnwallet.CommitOutputResolution
 	for _, r := range sp.Resolvers {
 		op := wire.OutPoint{Hash: w.commitHash, Index: uint32(r.Key)}
@@ -905,7 +931,7 @@ func (w *vrWorld) boot(ev vrEvent) *vrInc {
 			LocalHtlcSet:  newHtlcSet(w.htlcs[LocalHtlcSet]),
 			RemoteHtlcSet: newHtlcSet(w.htlcs[RemoteHtlcSet]),
 		}
-		if sp.Kind == "pending" {
+		if _, ok := w.htlcs[RemotePendingHtlcSet]; ok || sp.Kind == "pending" {
 			sets[RemotePendingHtlcSet] = newHtlcSet(w.htlcs[RemotePendingHtlcSet])
 		}
 	}
@@ -1259,6 +1285,26 @@ func vrScenarios() []vrSpec {
 		{Name: "local_htlc2", Kind: "local", UserFC: true, FailsDefault: []int64{2},
 			FailsClosed: e, FinalsClosed: e,
 			Resolvers: []vrResolver{vrResCommit(), vrResTimeoutLocal2(22, 1)}},
+		// colliding output indexes across the commitments of the persisted
+		// commit set: a restored resolver must be re-supplied with the htlc
+		// of the CONFIRMED commitment.
+		// our commitment confirms with htlc 1 at output 22; the unrevoked
+		// remote pending commitment holds the newer htlc 99 at ITS output 22
+		// (dangling: failed back in StateContractClosed).
+		{Name: "local_htlc2_collide", Kind: "local", UserFC: true, CSActs: true,
+			FailsDefault: []int64{2}, FailsClosed: []int64{99}, FinalsClosed: e,
+			Resolvers: []vrResolver{vrResCommit(), vrResTimeoutLocal2(22, 1)},
+			Collide:   []vrCollide{{Set: "pending", Idx: 99, OutIdx: 22}}},
+		// the remote commitment confirms with htlcs 1, 4, 5 at outputs 21,
+		// 24, 25; our own commitment holds other htlcs at the same indexes
+		// (nobody resolves those here: any upstream message about 96..98
+		// is a wrong one).
+		{Name: "remote_htlcs_collide", Kind: "remote", FailsDefault: e, FailsClosed: e,
+			FinalsClosed: e,
+			Resolvers: []vrResolver{vrResCommit(), vrResTimeoutRemote(21, 1),
+				vrResContestTimeout(24, 4), vrResContestClaim(25, 5)},
+			Collide: []vrCollide{{Set: "local", Idx: 98, OutIdx: 21},
+				{Set: "local", Idx: 97, OutIdx: 24}, {Set: "local", Idx: 96, OutIdx: 25}}},
 	}
 }
 
